@@ -165,7 +165,7 @@ type c18delivered struct {
 	good bool // an honest answer carrying the requested collection
 }
 
-var c18behaviours = []string{"honest", "different", "tamper", "notfound", "err5xx", "hang", "connerr"}
+var c18behaviours = []string{"honest", "honest", "honest", "different", "tamper", "notfound", "err5xx", "hang", "connerr"}
 
 func scenC18(w *vsim.World, spec *vsim.Spec) {
 	rnd := w.NewRand("gen")
@@ -175,8 +175,11 @@ func scenC18(w *vsim.World, spec *vsim.Spec) {
 		legacy:   w.Chance("legacy-path", 500),
 		wildcard: w.Chance("wildcard-remote", 300),
 		maxItems: 1000,
-		maxAmp:   w.Choose("max-amplification", 5),
-		timeout:  time.Duration(60+w.Choose("timeout", 540)) * time.Second,
+		// The legacy fan-out starts one plain goroutine per remote and lets them race for a
+		// buffered-channel semaphore; which one wins is decided by the Go runtime, not by the
+		// simulated world. The limit is therefore drawn from values that never contend.
+		maxAmp:  []int{0, nRemotes, nRemotes + 3}[w.Choose("max-amplification", 3)],
+		timeout: time.Duration(60+w.Choose("timeout", 540)) * time.Second,
 	}
 	// VERIF_FED_SKIP_KNOWN=1 (sensitivity testing only) keeps the legacy path away from the
 	// input class of the known finding "legacy:unsigned-hinted-locator".
